@@ -294,7 +294,7 @@ pub fn generate(out: &mut Out, tier: &str, seed: u64) {
     let rlimits: Vec<Option<usize>> = vec![None, Some(0), Some(3), Some(9)];
     let ropsx = l(all_ops(&rlimits).iter().map(op_sx).collect());
     let mut rng = Rng::new(seed);
-    let nrand = if thorough { 60000 } else { 4000 };
+    let nrand = if thorough { 600000 } else { 4000 };
     let rset = |rng: &mut Rng| -> Vec<(usize, usize)> {
         let k = 1 + rng.below(4);
         (0..k)
